@@ -806,12 +806,25 @@ func (r *vsRun) expectedStreams(imported map[string]bool) map[string]string {
 
 // checkViewComplete is C10(a): a freshly opened view covers exactly the
 // conversations of all captures whose import completion was delivered.
-func (r *vsRun) checkViewComplete(v *vsView) {
+func (r *vsRun) checkViewComplete(v *vsView) { r.checkViewCompleteMode(v, false) }
+
+// checkViewCompleteMode with handedOver=true (only at quiescence) takes "processed" from the harness' own
+// record of what it handed to ImportPcaps instead of the service's list of known captures: every readable
+// capture that was handed over has been processed once the import queue is empty.
+func (r *vsRun) checkViewCompleteMode(v *vsView, handedOver bool) {
 	if r.cfg.focus != "C10" {
 		return
 	}
 	imported := map[string]bool{}
+	if handedOver {
+		for _, n := range r.tr.Written {
+			imported[n] = true
+		}
+	}
 	_ = r.e.inLoop(func() {
+		if handedOver {
+			return
+		}
 		// captures of delivered imports: known to the builder and no longer queued
 		queued := map[string]bool{}
 		for _, n := range r.e.mgr.importJobs {
@@ -850,6 +863,9 @@ func (r *vsRun) checkViewComplete(v *vsView) {
 		r.fatalf("fresh view: %v", err)
 	}
 	if fmt.Sprint(got) != fmt.Sprint(want) {
+		if handedOver {
+			r.fatalf("at quiescence a fresh view shows\n%v\nbut the captures handed over for import (%v) contain\n%v", got, imported, want)
+		}
 		r.fatalf("a view opened after imports %v were processed shows\n%v\nbut those captures contain\n%v", imported, got, want)
 	}
 }
@@ -1340,6 +1356,7 @@ func (r *vsRun) finalChecks() {
 			r.fatalf("view: %v", err)
 		}
 		r.checkViewComplete(v)
+		r.checkViewCompleteMode(v, true)
 		v.v.Release()
 		_ = r.e.inLoop(func() {})
 	}
